@@ -34,13 +34,62 @@ def shards(tier, seed, scale=1.0):
     out = [{'name': 'wf-%d' % s, 'kind': 'wf', 'seed': seed * 1000 + s, 'n': max(10, int(n * scale))} for s in range(16)]
     for ti in range(len(T.CATALOGUE)):
         out.append({'name': 'literal-%d' % ti, 'kind': 'literal', 'tree': ti})
+    out.append({'name': 'dirfd0', 'kind': 'dirfd0'})
     return out
 
 
 def run_shard(desc):
     if desc['kind'] == 'literal':
         return run_literal(desc)
+    if desc['kind'] == 'dirfd0':
+        return run_dirfd0(desc)
     return run_wf(desc)
+
+
+DIRFD0_SPEC = [('f', 'a.txt'), ('d', 'sub'), ('f', 'sub/b.txt'), ('f', 'only_here'), ('l', 'lnk', 'sub')]
+DIRFD0_CALLS = [('only_here', 0), ('*', 0), ('sub/*', 0), ('sub/b.txt', 0), ('a.txt', G.MARK), ('**', G.GLOBSTAR), ('sub', G.MARK), ('sub/', 0), ('nosuch', 0),
+                ('lnk', G.MARK), ('lnk/*', 0), ('o*', G.NODIR)]
+
+
+def run_dirfd0(desc):
+    """The root directory open on descriptor 0 (a number like any other), the working directory somewhere else."""
+    out = Outcome()
+    out.exhaustive = True
+    with FC.built_tree(DIRFD0_SPEC) as (root, _r), util.temp_root() as other:
+        open(os.path.join(other, 'stranger'), 'w').close()
+        try:
+            saved = os.dup(0)
+        except OSError:
+            saved = None
+        fd = os.open(root, os.O_RDONLY)
+        results = []
+        try:
+            os.dup2(fd, 0)
+            with util.chdir(other):
+                for pat, fl in DIRFD0_CALLS:
+                    try:
+                        a = sorted(G.glob(pat, flags=fl, root_dir=root))
+                        b = sorted(G.glob(pat, flags=fl, dir_fd=0))
+                        bb = sorted(os.fsdecode(x) for x in G.glob(os.fsencode(pat), flags=fl, dir_fd=0))
+                    except Exception as e:
+                        a, b, bb = ['<a>'], ['<%s>' % type(e).__name__], []
+                    results.append((pat, fl, a, b, bb))
+        finally:
+            if saved is not None:
+                os.dup2(saved, 0)
+                os.close(saved)
+            else:
+                os.close(0)
+            os.close(fd)
+    for pat, fl, a, b, bb in results:
+        out.evaluations += 2
+        if a != b or a != bb:
+            out.violation({'kind': 'dirfd0', 'pattern': pat, 'flags': fl, 'root_dir': a, 'dir_fd_0': b, 'dir_fd_0_bytes': bb,
+                           'problem': 'result set depends on how the root is given: descriptor 0'}, bucket=('dirfd0', pat))
+        elif a:
+            out.nontrivial(('dirfd0', pat, fl))
+    out.sample({'stream': 'dirfd0', 'calls': len(results)})
+    return out
 
 
 def run_literal(desc):
@@ -248,6 +297,9 @@ def run_wf(desc):
 
 
 def replay(case):
+    if case.get('kind') == 'dirfd0':
+        o = run_dirfd0({})
+        return (not o.violations), [v[2] for v in o.violations][:3]
     util.clear_caches()
     spec = [tuple(e) for e in case['tree']]
     pps = [A.from_json(a) for a in case['asts']] if 'asts' in case else [A.from_json(case['ast'])]
